@@ -11,7 +11,7 @@ from fractions import Fraction
 from ..core import frac, call_real
 
 ID = "C04"
-LEAN_MODULE = "CKT.Props.C04LawU"
+LEAN_MODULE = "CKT.Props.C04Pop"
 THEOREMS = [
     "CKT.C04.infinite_budget", "CKT.C04.mem_allExact", "CKT.C04.allExact_no_zero", "CKT.C04.refuses_small_budget",
     "CKT.C04.visited_ge", "CKT.C04.dfs_full_ge", "CKT.C04.mem_visited", "CKT.C04.dfs_complete",
@@ -26,6 +26,11 @@ THEOREMS = [
     "CKT.C04.genSorted_law", "CKT.C04.law_normTop_top", "CKT.C04.tail_unbiased",
     "CKT.C04.relab_inj", "CKT.C04.probOf_relab", "CKT.C04.unPerm_getD", "CKT.C04.dfs_valid", "CKT.C04.genUnsorted_eq", "CKT.C04.find_relab",
     "CKT.C04.lawU_eq", "CKT.C04.relab_unrelab", "CKT.C04.genUnsorted_law", "CKT.C04.tail_unbiased_caller_order",
+    # the sampler hands back as many samples as requested, and in every branch the weights add up to N (Props/C04Pop); the hypothesis
+    # `samplerOK` (every oracle answer has the requested size) is evaluated by the driver for every case and must be true
+    "CKT.C04.counter_sum", "CKT.C04.populate_count", "CKT.C04.top_find", "CKT.C04.unPerm_sum", "CKT.C04.wts0_unsorted",
+    "CKT.C04.generateWeights_some", "CKT.C04.samplerOK_some", "CKT.C04.mass_split", "CKT.C04.sum_productIdx", "CKT.C04.allExact_sum",
+    "CKT.C04.generateWeights_total",
 ]
 RULE = ("1-4 probability vectors with 1-8 (thorough: up to 58) entries each: dyadic synthetic vectors (zeros, ties, near-zero entries; float arithmetic "
         "exact) and real gate bases; budgets N in [1, 1e6] integer / fractional / infinity; numpy.random.choice replaced by a scripted oracle whose "
@@ -252,7 +257,7 @@ def model_canon(kind, payload, out):
         return {"error": out["error"]}
     if kind == "gen_sorted":
         return {"ok": out["ok"]}
-    return {"ok": {str(w["key"]): [w["w"], w["ty"]] for w in out["ok"]}, "calls": out.get("calls")}
+    return {"ok": {str(w["key"]): [w["w"], w["ty"]] for w in out["ok"]}, "calls": out.get("calls"), "sampler_ok": out.get("sampler_ok")}
 
 
 def _close(a, b):
@@ -276,6 +281,9 @@ def compare(kind, payload, real, model):
             elif len(x["arr"]) != len(y["arr"]) or not all(_close(Fraction(a), b) for a, b in zip(x["arr"], y["arr"])):
                 return f"conditional table mismatch real={x} model={y}"
         return None
+    if model.get("sampler_ok") is False:
+        # hypothesis of `generateWeights_total` / `populate_count`: the scripted sampler answers every call with `size` draws
+        return "the draws recorded from the real run are not well formed for the model's sampler (samplerOK = false): the call structure differs"
     rc, mc = real.get("calls"), model.get("calls")
     if rc is not None and mc is not None:
         if [len(c) for c in rc] != [len(c) for c in mc]:
